@@ -18,6 +18,20 @@ rule) GaussianSimulator.  Four families of sub-explorations:
          bookkeeping of what the draws dictated.
   gauss  GaussianSimulator, mid-circuit general-dyne measurements with lattice answers: the second draw must be
          handed the conditional Gaussian of the joint law.
+  budget shots=N for EVERY N up to 120 (quick) / 400 (thorough): exhaustive over the (k, N) LATTICE of nested shot
+         budgets instead of over multisets.  One execution of PNM(0), gate(x), PNM(1) [, gate(x), PNM(2)] on three
+         modes per lattice point, every categorical draw FORCED by the harness (mc/c03_own.forcing): the first draw
+         returns k times its first and N-k times its second outcome (0 <= k <= N), the second-level draw of the first
+         branch splits (count-1 : 1) -- and, three levels, every (N, k1, k2) with k2 <= k1 <= N for N <= 24 / 60.  A thin
+         user-level subclass of the simulator wraps the _instruction_map entry of the measurement and records the
+         `shots` argument every simulation step is handed: it must be the count of the branch (api/simulator.py:
+         int(branch.frequency * shots)); len(samples) == N, counts, Fraction frequencies with denominators dividing N
+         that sum to 1 exactly.
+  tree / shots also run programs around an ImperfectParticleNumberMeasurement (items "itree" / "ishots"): on a strict
+         subset of the modes (one actual count fans out into several detected counts, one branch per (actual,
+         detected) pair, each with its own state), followed by gates on the remaining modes (conditions and parameters
+         depending on the REPORTED outcome) and further (perfect or imperfect) measurements; reference = the classical
+         detector channel of mc/refmodel/projref.py; the detector draws (Config.rng.choice) are choice points.
 """
 
 import contextlib
@@ -1678,13 +1692,22 @@ def run(ctx, builddir):
         "unconditioned / lambda-conditioned / string-conditioned gate, gate with callable / expression-string parameter} within the "
         "depth and measurement bounds, per simulator, d and initial state; shots: the same alphabet at smaller depth, and for each program "
         "and N EVERY path of the harness-owned randomness (every multiset of outcomes of every categorical draw, recursively per branch). "
-        "A case is one program (tree, part) or one (program, N) with all of its random paths (shots); distinct = distinct serialised case; "
+        "itree/ishots: [Gu] ImperfectParticleNumberMeasurement(S) for every ordered subset S (strict subsets where the simulator allows "
+        "it mid-circuit), then every op sequence over the same alphabet + IPNM(T) within the depth bound (terminal-only simulators: "
+        "[PNM(S), [gate]] IPNM(T)); with shots=N every multiset of actual outcomes and every sequence (one measured mode: multiset) of "
+        "detector draws.  budget: every lattice point (N, k) 1 <= N <= Nmax, 0 <= k <= N (two measurement levels) and (N, k1, k2), "
+        "k2 <= k1 <= N (three levels), ONE forced execution each (no other multiset is enumerated there). "
+        "A case is one program (tree, part), one (program, N) with all of its random paths (shots) or one lattice point (budget); "
+        "distinct = distinct serialised case (budget: lattice points with N <= 6 only are registered); "
         "non-trivial = contains at least one measurement whose outcome is not deterministic."
     )
     ctx.assume("gate alphabet restricted to photon-number-conserving gates (Beamsplitter, Phaseshifter, Kerr, Interferometer): exact in a truncated Fock space, so sequential and joint measurements must agree to 1e-9")
     ctx.assume("exact trees may drop outcomes of probability <= 1e-8 (numpy.isclose in piquasso/_utils.py): reference outcomes <= 2e-8 may be absent; zero-weight branches are not compared")
     ctx.assume("generic unitary / angles are a deterministic function of VERIF_SEED (no RNG)")
     ctx.assume("fermionic branch states are compared up to a global sign per branch (the two physically equivalent conventions -- measured creation operators anticommuted to the left or to the right -- differ by one)")
+    ctx.assume("budget family: the categorical draws are dictated (forced), so path probabilities play no role there; the passive sampler entry points are answered from the law computed by the reference model (the sampling law itself is C02's subject)")
+    ctx.assume("imperfect detector: the implementation's representation (one branch per (actual, detected) pair while a state remains, pairs merged when no mode remains) is accepted as is: totals per reported outcome must be the exact joint probabilities, and pairs are compared pair by pair when their number agrees with the reference; detector probabilities go through Fraction(float).limit_denominator() (1e-12), far inside 1e-9")
+    ctx.assume("PassiveSimulator, shots=None, a further measurement behind an imperfect one: a deviation that equals the known double count (F17a) exactly is reported with the F17a signature, any other deviation with input_class sequential_measurements_not_the_known_double_count")
     ctx.assume("passive post-selected full-mode sampling is made finite with Config.max_sample_generation_trials = 2; paths ending in 'Too many trials' are counted, not judged")
     core.pmap(ctx, "mc.checks.c03", "work", items, builddir)
     c = ctx.counters
@@ -1699,11 +1722,17 @@ def run(ctx, builddir):
         "paths": c.get("paths", 0),
         "max_depth": c.get("max_depth", 0),
         "programs": c.get("cases", 0),
+        "budget_lattice_points": c.get("lattice_points", 0),
+        "budget_max_shots": c.get("max_shots", 0),
+        "nested_budgets_checked": c.get("budgets_checked", 0),
+        "imperfect_pairs_matched": c.get("pairs_matched", 0),
         "unsupported_cells": sum(v for k, v in c.items() if k.startswith("unsupported_")),
         "explanation": "states = nodes of the choice trees of the shots=N explorations (distinct choice prefixes) + branches of the exact "
         "(shots=None) outcome trees + joint/sequential weight maps compared; transitions = alternatives of all choice points + exact-tree "
         "branches (one measurement outcome each); traces = executions of simulator.execute on the real implementation, each compared "
-        "with the reference model (every random path of every (program, N), every exact tree, every partition)",
+        "with the reference model (every random path of every (program, N), every exact tree, every partition, every lattice point of "
+        "the budget family: there a state is a node of the forced outcome tree -- root + one per measurement step call -- and a transition "
+        "one branch created by a step)",
     }
 
 
